@@ -332,6 +332,8 @@ class Text(Input):
             if rowstr[0] == "#":
                 curr = rowstr[1:]
                 curr = curr.split()
+                if len(curr) == 0:
+                    continue
                 if curr[0] == "variable:":
                     self._variable_name = ' '.join(curr[1:])
                 elif curr[0] == "units:":
